@@ -38,6 +38,12 @@ Section TwoTracks.
 Variables (fx rot : bool) (cfg : S.sess_cfg) (ua uv : U13.unpacker) (apt vpt assrc vssrc : N).
 Hypothesis Hca : clock_pos (U13.uk_clock ua).
 Hypothesis Hcv : clock_pos (U13.uk_clock uv).
+(* header variants of the two tracks' packets (padding only where the unpacker cannot reach it: not on AAC) *)
+Variables VA VV : N * N * bytes -> hvar.
+Hypothesis HVA : forall a, hv_ok (VA a).
+Hypothesis HVV : forall a, hv_ok (VV a).
+Hypothesis HPA : forall a, pad_free (tf_of (U13.uk_kind ua)) (VA a).
+Hypothesis HPV : forall a, pad_free (tf_of (U13.uk_kind uv)) (VV a).
 Hypothesis Hua : S.sc_aunp cfg = Some ua.
 Hypothesis Huv : S.sc_vunp cfg = Some uv.
 Hypothesis Hapt : S.sc_apt cfg = Z.of_N apt.
@@ -55,7 +61,7 @@ Hypothesis Hisa : is_video_pt (U13.uk_pt ua) = false.
 
 (* a packet on the wire: (true, a) = the video track's arrival a on channel 2, (false, a) = audio on channel 0 *)
 Definition enc (x : bool * (N * N * bytes)) : N * bytes :=
-  if fst x then (2, raw_of vpt vssrc (snd x)) else (0, raw_of apt assrc (snd x)).
+  if fst x then (2, raw_of VV vpt vssrc (snd x)) else (0, raw_of VA apt assrc (snd x)).
 Definition sel (v : bool) (l : list (bool * (N * N * bytes))) : list (N * N * bytes) :=
   map snd (filter (fun x => Bool.eqb (fst x) v) l).
 
@@ -65,7 +71,7 @@ Lemma as_audio_outs o : as_ (map (to_av (U13.uk_pt ua)) o) = map (to_av (U13.uk_
 Proof. apply as_all. apply Forall_map. apply Forall_forall. intros x _. exact Hisa. Qed.
 
 Theorem two_track_run : forall pkts s ca cv q r groups,
-  crel (S.ss_acont s) ca -> crel (S.ss_vcont s) cv -> Forall (fun x => arr_ok (snd x)) pkts ->
+  crel (tf_of (U13.uk_kind ua)) (S.ss_acont s) ca -> crel (tf_of (U13.uk_kind uv)) (S.ss_vcont s) cv -> Forall (fun x => arr_ok (snd x)) pkts ->
   rtsp_run fx rot cfg s (Some q) r (map enc pkts) = Ok groups ->
   exists avs sa oa sv ov q' outs r',
     C12.feed_all (pr_of (U13.uk_kind ua)) (Z.to_N (U13.uk_clock ua)) S.unpacker_max_size ca (sel false pkts) = Ok (sa, oa) /\
@@ -79,11 +85,12 @@ Proof.
   - apply Forall_cons_iff in Hok as [Hak Hokt]. cbn [snd] in Hak. unfold enc at 1 in E. cbn [fst snd] in E.
     destruct isv.
     + (* a video packet *)
-      destruct (handle_video cfg s uv 2 vpt vssrc a Huv Hvpt) as (h & Hseq & Hts & Hbody & Eh); try assumption.
+      destruct (handle_video VV cfg s uv 2 vpt vssrc a Huv Hvpt) as (h & Hseq & Hts & Hbody & Eh); try assumption; try apply HVV.
       { rewrite Hapt. intros Hc. apply Hdiff. lia. } { right. symmetry. exact Hvch. }
       rewrite Eh in E. clear Eh. pose proof Hak as (_ & _ & _ & Hbytes & Hlen).
-      pose proof (feed_sim uv Hcv S.unpacker_max_size (S.ss_vcont s) cv h (raw_of vpt vssrc a) (snd a) Hrv Hbody Hbytes Hlen) as Hf.
-      destruct (U13.cont_feed true uv S.unpacker_max_size (S.ss_vcont s) h (raw_of vpt vssrc a)) as [[c' avs1]| |]; cbn [bind] in E; try discriminate.
+      assert (Htail : tf_of (U13.uk_kind uv) = true -> pad_bytes (hv_pad (VV a)) = []) by (intros Et; rewrite (HPV a Et); reflexivity).
+      pose proof (feed_sim uv Hcv S.unpacker_max_size (S.ss_vcont s) cv h (raw_of VV vpt vssrc a) (snd a) _ Hrv Hbody Htail Hbytes Hlen) as Hf.
+      destruct (U13.cont_feed true uv S.unpacker_max_size (S.ss_vcont s) h (raw_of VV vpt vssrc a)) as [[c' avs1]| |]; cbn [bind] in E; try discriminate.
       destruct Hf as (st1 & o1 & Ef & Hr1 & ->). rewrite Hseq, Hts in Ef.
       rewrite deliver_some in E. destruct (aq_run rot q (map (to_av (U13.uk_pt uv)) o1)) as [q1 outs1] eqn:Eq.
       destruct (feed_all_av fx r (concat outs1)) as [[r1 m1]| |] eqn:Em; cbn [bind] in E; try discriminate.
@@ -100,11 +107,12 @@ Proof.
       split; [rewrite aq_run_app, Eq, Eq2; reflexivity|].
       rewrite concat_app, feed_all_av_app, Em. cbn [bind]. rewrite Em2. reflexivity.
     + (* an audio packet *)
-      destruct (handle_audio cfg s ua 0 apt assrc a Hua Hapt) as (h & Hseq & Hts & Hbody & Eh); try assumption.
+      destruct (handle_audio VA cfg s ua 0 apt assrc a Hua Hapt) as (h & Hseq & Hts & Hbody & Eh); try assumption; try apply HVA.
       { left. symmetry. exact Hach. }
       rewrite Eh in E. clear Eh. pose proof Hak as (_ & _ & _ & Hbytes & Hlen).
-      pose proof (feed_sim ua Hca S.unpacker_max_size (S.ss_acont s) ca h (raw_of apt assrc a) (snd a) Hra Hbody Hbytes Hlen) as Hf.
-      destruct (U13.cont_feed true ua S.unpacker_max_size (S.ss_acont s) h (raw_of apt assrc a)) as [[c' avs1]| |]; cbn [bind] in E; try discriminate.
+      assert (Htail : tf_of (U13.uk_kind ua) = true -> pad_bytes (hv_pad (VA a)) = []) by (intros Et; rewrite (HPA a Et); reflexivity).
+      pose proof (feed_sim ua Hca S.unpacker_max_size (S.ss_acont s) ca h (raw_of VA apt assrc a) (snd a) _ Hra Hbody Htail Hbytes Hlen) as Hf.
+      destruct (U13.cont_feed true ua S.unpacker_max_size (S.ss_acont s) h (raw_of VA apt assrc a)) as [[c' avs1]| |]; cbn [bind] in E; try discriminate.
       destruct Hf as (st1 & o1 & Ef & Hr1 & ->). rewrite Hseq, Hts in Ef.
       rewrite deliver_some in E. destruct (aq_run rot q (map (to_av (U13.uk_pt ua)) o1)) as [q1 outs1] eqn:Eq.
       destruct (feed_all_av fx r (concat outs1)) as [[r1 m1]| |] eqn:Em; cbn [bind] in E; try discriminate.
@@ -237,23 +245,24 @@ Proof. intros <-. rewrite firstn_app, firstn_all, Nat.sub_diag. cbn [firstn]. re
 
 (* two tracks, interleave queue, remuxer: the NAL units a consumer reads are a prefix of the video
    track's units (AUD / parameter sets removed), and fewer than 128 AvPackets are still queued *)
-Theorem two_tracks_video_nals rot cfg ua uv apt vpt assrc vssrc (hevc : bool)
+Theorem two_tracks_video_nals rot cfg ua uv VA VV apt vpt assrc vssrc (hevc : bool)
         pkts s ca cv r groups sv (tsf : N * bytes -> N) (nals : list (N * bytes)) :
   clock_pos (U13.uk_clock ua) -> clock_pos (U13.uk_clock uv) ->
+  (forall a, hv_ok (VA a)) -> (forall a, hv_ok (VV a)) -> (forall a, pad_free (tf_of (U13.uk_kind ua)) (VA a)) -> (forall a, pad_free (tf_of (U13.uk_kind uv)) (VV a)) ->
   S.sc_aunp cfg = Some ua -> S.sc_vunp cfg = Some uv -> S.sc_apt cfg = Z.of_N apt -> S.sc_vpt cfg = Z.of_N vpt ->
   apt <> vpt -> S.sc_artp cfg = 0 -> S.sc_vrtp cfg = 2 -> apt < 128 -> vpt < 128 -> assrc < 4294967296 -> vssrc < 4294967296 ->
   U13.uk_pt uv = (if hevc then pt_hevc else pt_avc) -> is_video_pt (U13.uk_pt ua) = false ->
-  rs_vfmt r = vfmt_avcc -> crel (S.ss_acont s) ca -> crel (S.ss_vcont s) cv -> Forall (fun x => arr_ok (snd x)) pkts ->
-  rtsp_run true rot cfg s (Some aq_init) r (map (enc apt vpt assrc vssrc) pkts) = Ok groups ->
+  rs_vfmt r = vfmt_avcc -> crel (tf_of (U13.uk_kind ua)) (S.ss_acont s) ca -> crel (tf_of (U13.uk_kind uv)) (S.ss_vcont s) cv -> Forall (fun x => arr_ok (snd x)) pkts ->
+  rtsp_run true rot cfg s (Some aq_init) r (map (enc apt vpt assrc vssrc VA VV) pkts) = Ok groups ->
   C12.feed_all (pr_of (U13.uk_kind uv)) (Z.to_N (U13.uk_clock uv)) S.unpacker_max_size cv (sel true pkts)
     = Ok (sv, map (fun tn => (tsf tn, RtpUnpacker.avcc (snd tn))) nals) ->
   Forall (fun tn => avcc_ok (snd tn)) nals ->
   exists k, (k <= length nals)%nat /\ (length nals - k < 128)%nat /\
             read_video_nals (av_msgs (concat groups)) = filter (keep_nal hevc) (map snd (firstn k nals)).
 Proof.
-  intros Hca Hcv Hua Huv Hapt Hvpt Hdiff Hach Hvch Hpa Hpv Hsa Hsv Hptv Hisa Hf Hra Hrv Hok E Ec12 Hnals.
+  intros Hca Hcv HVA HVV HPA HPV Hua Huv Hapt Hvpt Hdiff Hach Hvch Hpa Hpv Hsa Hsv Hptv Hisa Hf Hra Hrv Hok E Ec12 Hnals.
   assert (Hisv : is_video_pt (U13.uk_pt uv) = true) by (rewrite Hptv; destruct hevc; reflexivity).
-  destruct (two_track_run true rot cfg ua uv apt vpt assrc vssrc Hca Hcv Hua Huv Hapt Hvpt Hdiff Hach Hvch Hpa Hpv Hsa Hsv Hisv Hisa
+  destruct (two_track_run true rot cfg ua uv apt vpt assrc vssrc Hca Hcv VA VV HVA HVV HPA HPV Hua Huv Hapt Hvpt Hdiff Hach Hvch Hpa Hpv Hsa Hsv Hisv Hisa
               pkts s ca cv aq_init r groups Hra Hrv Hok E)
     as (avs & sa & oa & sv' & ov & q' & outs & r' & _ & Ev & _ & Hvs & Eq & Em).
   rewrite Ec12 in Ev. injection Ev as _ <-.
